@@ -37,7 +37,8 @@ def opOb (args : List String) (impl : String) : Verdict :=
   match args with
   | [b, bs, entry0] =>
     -- `+t<m>`: the data reader hands out at most m bytes per call; nothing may depend on that
-    let entry := (entry0.splitOn "+t").head!
+    -- `+p<k>`: the reader is handed to `create` positioned at byte k; `create` rewinds it
+    let entry := (entry0.splitOn "+").head!
     match blob b, bs.toNat? with
     | some d, some bs =>
       let tree : Tree := ⟨d.length, bs⟩
